@@ -377,6 +377,12 @@ impl Index {
             pos = a.end;
         }
         text.push_str(&f.text[pos..range.end]);
+        // N1: restricted visibility on fields has no run-time meaning; Verus treats such types as opaque
+        let nvis = text.matches("pub(crate) ").count() + text.matches("pub(super) ").count();
+        if nvis > 0 {
+            text = text.replace("pub(crate) ", "pub ").replace("pub(super) ", "pub ");
+            dropped.push(format!("{} restricted field visibilities widened to pub", nvis));
+        }
         let info = json!({"name": name, "file": f.path, "src_line_start": line_of(&f.text, range.start),
             "src_line_end": line_of(&f.text, range.end), "item_text": orig, "dropped_attrs": dropped});
         Ok((text, info))
